@@ -171,8 +171,18 @@ def iters(ctx):
             ctx.ob(rid, ok, f.where, "operator++ assigns the loaded successor to m_current", "", fn=f.label, inst=f.qname)
     for f in fb.functions(rec=RCU, name="begin"):
         n += 1
-        ops = atomic_ops(f)
-        ok = len(ops) == 1 and ops[0]["op"] == "load" and atomic_field_of(f, ops[0]) == (RCU, "m_head")
-        ctx.ob(rid, ok, f.where, "begin() is a single atomic load of m_head", "", fn=f.label, inst=f.qname)
+        ops = list(atomic_ops(f))
+        fns = [f]
+        for c in f.stmts.values():
+            if c["k"] in CALLS:
+                g = fb.callee_fn(f, c)
+                if g is not None and g.rec == RCU and g not in fns:
+                    fns.append(g)
+                    ops += [dict(o, _f=g) for o in atomic_ops(g)]
+        links = [o for o in ops if re.search(r"::node \*>$", o["objtype"])]
+        ok = any(o["op"] == "load" and atomic_field_of(o.get("_f", f), o) == (RCU, "m_head") for o in links) and \
+            all(o["op"] == "load" for o in links)
+        ctx.ob(rid, ok, f.where, "begin() reads the first node with an atomic load of m_head and writes no link",
+               "" if ok else str([(o["op"], o["obj"]) for o in links]), fn=f.label, inst=f.qname)
     if n == 0:
         ctx.broken("rcu_list iterators not instantiated")
